@@ -49,7 +49,11 @@ def step (st : St) (ws : List String) (j : Json) : St × String :=
       let b (k : String) := (jbool? (jget j k)).getD false
       let orc : List String :=
         (if b "sched_stopped" then [] else ["scheduler_stuck"]) ++
-        (if b "rets_same" then [] else ["answered_as_serial"]) ++
+        (if b "rets_same" then [] else
+          -- one predicate per class of differing reply: (op kind, reply under concurrency)
+          ((jarr (jget j "ret_diffs")).map fun d => match jarr d with
+            | [op, r, _] => s!"answered_as_serial:{jstr op}:{jstr r}"
+            | _ => "answered_as_serial:?").eraseDups) ++
         (if b "state_same" then [] else ["state_equals_serial"]) ++
         (if (jarr (jget j "rp_problems")).isEmpty then [] else ["rp_valid"]) ++
         -- RRDP files: snapshots reach the disk in serial order, and once idle the notification
